@@ -47,6 +47,7 @@ inductive Stmt where
   | decl (const : Bool) (static : Bool) (ty : Ty) (x : String) (init : Option Expr)
   | declArr (const : Bool) (ty : Ty) (x : String) (dims : List Nat) (init : Option (List Expr))
   | declStruct (sname : String) (x : String)
+  | declStructInit (const : Bool) (sname : String) (x : String) (inits : List Expr)  -- S x = {f: e, …}
   | assign (lv : Expr) (e : Expr)
   | compound (op : BinOp) (lv : Expr) (e : Expr)
   | expr (e : Expr)
@@ -67,6 +68,7 @@ structure Param where
   ty : Ty
   name : String
   dflt : Option Int := none
+  const : Bool := false
   deriving Repr, Inhabited
 
 structure Func where
